@@ -31,7 +31,8 @@ class Query:
     def __init__(self, key, harness, entry, defines=None, lowering='scalar', libs=(), models=(), stubs=None,
                  unwind=8, backends=('minisat', 'kissat', 'cvc5int'), cap=120, expect='pass', abort_fails=False,
                  extra=(), validate=False, witness=True, canary_of=None, externs=(), noops=(), sample=None,
-                 unwindset=(), native_sweep=200, object_bits=14, cflags=(), leak=False, finding_key=None):
+                 unwindset=(), native_sweep=200, object_bits=14, cflags=(), leak=False, finding_key=None, fp_uf=False):
+        self.fp_uf = fp_uf
         self.key = key
         self.harness = harness
         self.entry = entry
@@ -61,6 +62,30 @@ class Query:
 
     def slug(self):
         return re.sub(r'[^A-Za-z0-9_.=-]', '_', self.key)[:100] + '_' + hashlib.md5(self.key.encode()).hexdigest()[:6]
+
+
+import ctypes
+_libc = ctypes.CDLL('libc.so.6', use_errno=True)
+
+
+def _pdeathsig():
+    # die with the parent: a killed check must not leave solver processes behind
+    _libc.prctl(1, signal.SIGKILL)
+
+
+def _solver_preexec():
+    os.setsid()
+    _libc.prctl(1, signal.SIGKILL)
+
+
+def _vmhwm_kb(pid):
+    try:
+        for line in open('/proc/%d/status' % pid):
+            if line.startswith('VmHWM:'):
+                return int(line.split()[1])
+    except Exception:
+        pass
+    return 0
 
 
 def run(cmd, **kw):
@@ -193,24 +218,28 @@ def portfolio(gb, q, work, logdir):
     memlimit = int(os.environ.get('SYMX_MEM_KB', str(20 * 1024 * 1024)))
     for b in q.backends:
         logf = os.path.join(logdir, q.slug() + '.' + b + '.log')
-        cmd = 'ulimit -v %d; exec /usr/bin/time -f "SYMX-RSS-KB %%M" %s' % (memlimit, ' '.join(_sh(a) for a in base + BACKEND_FLAGS[b]))
+        cmd = 'ulimit -v %d; exec %s' % (memlimit, ' '.join(_sh(a) for a in base + BACKEND_FLAGS[b]))
         f = open(logf, 'w')
-        p = subprocess.Popen(['bash', '-c', cmd], stdout=f, stderr=subprocess.STDOUT, env=env, cwd=work, preexec_fn=os.setsid)
+        p = subprocess.Popen(['bash', '-c', cmd], stdout=f, stderr=subprocess.STDOUT, env=env, cwd=work, preexec_fn=_solver_preexec)
         procs[b] = (p, logf, f)
+    rss = {b: 0 for b in procs}
+    tick = 0
     winner = None
     results = {}
     while procs and winner is None:
         time.sleep(0.05)
+        tick += 1
         for b in list(procs):
             p, logf, f = procs[b]
+            if tick % 10 == 0:
+                rss[b] = max(rss[b], _vmhwm_kb(p.pid))
             if p.poll() is not None:
                 f.close()
                 out = open(logf, errors='replace').read()
                 r = parse_cbmc(out)
                 r['backend'] = b
                 r['solver_s'] = round(time.time() - t0, 2)
-                mm = re.search(r'SYMX-RSS-KB (\d+)', out)
-                r['rss_mb'] = int(mm.group(1)) // 1024 if mm else None
+                r['rss_mb'] = rss[b] // 1024
                 r['log'] = logf
                 results[b] = r
                 del procs[b]
@@ -273,11 +302,13 @@ def prepare(q, work):
     inc = ['-I' + os.path.join(HERE, 'include')]
     gb = os.path.join(qd, 'q.gb')
     d = ['-DSYMX_ABORT_FAILS'] if q.abort_fails else []
+    if q.fp_uf:
+        d.append('-DSYMX_FP_UF')
     must(['goto-cc', '-D__CPROVER__'] + inc + d + [cfile, '-o', gb])
     gbw = None
     if q.witness:
         gbw = os.path.join(qd, 'w.gb')
-        must(['goto-cc', '-D__CPROVER__'] + inc + ['-DSYMX_WITNESS', cfile, '-o', gbw])
+        must(['goto-cc', '-D__CPROVER__'] + inc + d + ['-DSYMX_WITNESS', cfile, '-o', gbw])
     return {'dir': qd, 'c': cfile, 'gb': gb, 'gbw': gbw, 'report': rep}
 
 
@@ -510,7 +541,7 @@ def run_property(pid, spec, tier, seed):
     workers = max(1, min(len(queries), NCPU // max(1, min(nback, 3))))
     workers = int(os.environ.get('SYMX_WORKERS', workers))
     recs = []
-    with ProcessPoolExecutor(workers) as ex:
+    with ProcessPoolExecutor(workers, initializer=_pdeathsig) as ex:
         futs = {ex.submit(run_query, (q, work, logdir, seed, replaydir)): q for q in queries}
         for f in as_completed(futs):
             r = f.result()
